@@ -59,6 +59,13 @@ struct Scenario {
     init: Vec<OpK>,
     ops: Vec<OpK>,
     sched: Option<Vec<Choice>>,
+    /// `gate <task> <index>`: real-parallelism replay — the task runs on its own OS thread and is
+    /// held inside the index-value hook of B-tree index `<index>` (i.e. between two index
+    /// mutations of its synchronous index closure) until every other call has returned.
+    gate: Option<(usize, String)>,
+    /// oracle-only pass: read cache on and every backend call also parks *after* it was applied
+    /// (the windows the cache generations protect); the model has no cache, so it is not consulted
+    cache: bool,
 }
 
 fn op_text(o: &OpK) -> String {
@@ -105,6 +112,12 @@ impl Scenario {
         let mut l = vec![format!("conf {} {}", self.idx_k as u8, self.idx_u as u8)];
         l.extend(self.init.iter().map(|o| format!("init {}", op_text(o))));
         l.extend(self.ops.iter().map(|o| format!("op {}", op_text(o))));
+        if let Some((t, ix)) = &self.gate {
+            l.push(format!("gate {t} {ix}"));
+        }
+        if self.cache {
+            l.push("cache on".into());
+        }
         if let Some(s) = &self.sched {
             l.push(format!("sched {}", join(s.iter().map(|c| c.text()), ",")));
         }
@@ -118,6 +131,8 @@ impl Scenario {
                 ["conf", a, b] => { sc.idx_k = *a == "1"; sc.idx_u = *b == "1"; }
                 ["init", rest @ ..] => sc.init.push(parse_op(rest)?),
                 ["op", rest @ ..] => sc.ops.push(parse_op(rest)?),
+                ["gate", t, ix] => sc.gate = Some((t.parse().ok()?, ix.to_string())),
+                ["cache", "on"] => sc.cache = true,
                 ["sched", s] => sc.sched = Some(if *s == "-" { vec![] } else { s.split(',').map(Choice::parse).collect::<Option<Vec<_>>>()? }),
                 _ => return None,
             }
@@ -191,11 +206,38 @@ fn flush_now() -> u64 {
     anda_db::unix_ms() + 1000 * TICK.fetch_add(1, std::sync::atomic::Ordering::SeqCst)
 }
 
+/// Index hooks that can hold one call between two index mutations (see `Scenario::gate`).
+#[derive(Default)]
+struct GateHooks {
+    armed: std::sync::atomic::AtomicBool,
+    index: std::sync::Mutex<String>,
+    doc: std::sync::Mutex<(u64, u64)>,
+    reached: (std::sync::Mutex<bool>, std::sync::Condvar),
+    go: (std::sync::Mutex<bool>, std::sync::Condvar),
+}
+
+impl anda_db::index::IndexHooks for GateHooks {
+    fn btree_index_value<'a>(&self, index: &anda_db::index::BTree, doc: &'a Document) -> Option<std::borrow::Cow<'a, Fv>> {
+        if self.armed.load(std::sync::atomic::Ordering::SeqCst) && index.name() == *self.index.lock().unwrap() {
+            let d = doc_of(doc);
+            if (d.0, d.1) == *self.doc.lock().unwrap() {
+                self.armed.store(false, std::sync::atomic::Ordering::SeqCst);
+                *self.reached.0.lock().unwrap() = true;
+                self.reached.1.notify_all();
+                let g = self.go.0.lock().unwrap();
+                let _ = self.go.1.wait_timeout_while(g, std::time::Duration::from_secs(10), |go| !*go).unwrap();
+            }
+        }
+        anda_db::index::IndexHooks::btree_index_value(&anda_db::index::DefaultIndexHooks, index, doc)
+    }
+}
+
 struct Live {
     _db: AndaDB,
     c: Arc<Collection>,
     mem: Arc<InMemory>,
     ctl: Arc<sched::Ctl>,
+    hooks: Arc<GateHooks>,
     /// counters right after creation (the model starts from 0)
     base_version: u64,
 }
@@ -208,24 +250,31 @@ fn setup(rt: &tokio::runtime::Runtime, sc: &Scenario) -> Result<Live, String> {
     let mem = Arc::new(InMemory::new());
     let (store, ctl) = SchedStore::wrap(mem.clone());
     let (idx_k, idx_u) = (sc.idx_k, sc.idx_u);
+    let hooks = Arc::new(GateHooks::default());
+    let hooks2 = hooks.clone();
+    let gated = sc.gate.is_some();
+    let cache_on = sc.cache;
     block_on(rt, async {
         let db = AndaDB::connect(
             Arc::new(store),
-            DBConfig { name: DB.into(), description: String::new(), storage: StorageConfig { cache_max_capacity: 0, compress_level: 0, ..Default::default() }, lock: None },
+            DBConfig { name: DB.into(), description: String::new(), storage: StorageConfig { cache_max_capacity: if cache_on { 10000 } else { 0 }, compress_level: 0, ..Default::default() }, lock: None },
         )
         .await
         .map_err(|e| format!("connect: {e}"))?;
         let c = db
             .open_or_create_collection(Doc::schema().map_err(|e| format!("schema: {e}"))?, CollectionConfig { name: COLL.into(), description: String::new() }, async move |c| {
-                if idx_k { c.create_btree_index_nx(&["k"]).await?; }
+                if gated { c.set_index_hooks(hooks2); }
+                // unique indexes are *prepended* to `btree_indexes` (create_btree_index: `insert(0, …)`), and the
+                // index closures walk that vector: creating `u` first makes the walk order k, u — the model's order
                 if idx_u { c.create_btree_index_nx(&["u"]).await?; }
+                if idx_k { c.create_btree_index_nx(&["k"]).await?; }
                 Ok(())
             })
             .await
             .map_err(|e| format!("create: {e}"))?;
         c.flush(flush_now()).await.map_err(|e| format!("settle flush: {e}"))?;
         let base_version = c.stats().version;
-        Ok(Live { _db: db, c, mem, ctl, base_version })
+        Ok(Live { _db: db, c, mem, ctl, hooks, base_version })
     })
 }
 
@@ -330,6 +379,7 @@ fn execute(rt: &tokio::runtime::Runtime, sc: &Scenario, all_started_first: bool,
     }
     let _enter = rt.enter();
     live.ctl.set_park(true);
+    live.ctl.set_post(sc.cache);
     let futs: Vec<TaskFut> = sc
         .ops
         .iter()
@@ -399,6 +449,72 @@ fn execute(rt: &tokio::runtime::Runtime, sc: &Scenario, all_started_first: bool,
     Ok(Outcome { init_results, results, times, choices: trace.iter().map(|(c, _)| *c).collect(), model_sched, classes, dump_main, dump_extra, deadlock, branching })
 }
 
+/// Real parallelism, deterministically: the gated call runs on its own OS thread and is held
+/// inside its index closure; the other calls run one after the other on this thread; then the
+/// gated call is let go.  The store is pass-through (no parking).
+fn execute_gated(rt: &tokio::runtime::Runtime, sc: &Scenario) -> Result<Outcome, String> {
+    let (gt, gix) = sc.gate.clone().ok_or("no gate")?;
+    let live = setup(rt, sc)?;
+    let mut init_results = vec![];
+    for op in &sc.init {
+        init_results.push(block_on(rt, apply(&live.c, op)));
+    }
+    let gop = sc.ops.get(gt).cloned().ok_or("gate names no call")?;
+    // the document the gated call is about to index: for an add its own, for an update the proposed one
+    let target: (u64, u64) = match &gop {
+        OpK::Add { k, u, .. } => (*k, *u),
+        OpK::Upd { id, k, u, .. } => {
+            let cur = block_on(rt, live.c.get(*id)).map(|d| doc_of(&d)).map_err(|e| format!("gated update target: {e}"))?;
+            (k.unwrap_or(cur.0), u.unwrap_or(cur.1))
+        }
+        _ => return Err("only add / update can be gated".into()),
+    };
+    *live.hooks.index.lock().unwrap() = gix.clone();
+    *live.hooks.doc.lock().unwrap() = target;
+    live.hooks.armed.store(true, std::sync::atomic::Ordering::SeqCst);
+    let c2 = live.c.clone();
+    let handle = std::thread::spawn(move || {
+        let rt2 = tokio::runtime::Builder::new_current_thread().enable_all().build().unwrap();
+        rt2.block_on(apply(&c2, &gop))
+    });
+    {
+        let g = live.hooks.reached.0.lock().unwrap();
+        let (g, to) = live.hooks.reached.1.wait_timeout_while(g, std::time::Duration::from_secs(5), |r| !*r).unwrap();
+        if to.timed_out() && !*g {
+            *live.hooks.go.0.lock().unwrap() = true;
+            live.hooks.go.1.notify_all();
+            let _ = handle.join();
+            return Err("the gated call never reached the hook of that index".into());
+        }
+    }
+    let n = sc.ops.len();
+    let mut results = vec![String::new(); n];
+    let mut times = vec![(0u64, 0u64); n];
+    let mut clock = 1u64;
+    times[gt].0 = clock;
+    let mut model_sched = vec![format!("s{gt}")];
+    for (t, op) in sc.ops.iter().enumerate() {
+        if t == gt { continue; }
+        clock += 1;
+        times[t].0 = clock;
+        results[t] = block_on(rt, apply(&live.c, op));
+        clock += 1;
+        times[t].1 = clock;
+        model_sched.push(format!("a{t}"));
+    }
+    *live.hooks.go.0.lock().unwrap() = true;
+    live.hooks.go.1.notify_all();
+    results[gt] = handle.join().map_err(|_| "gated call panicked".to_string())?;
+    clock += 1;
+    times[gt].1 = clock;
+    model_sched.push(format!("a{gt}"));
+    for (t, r) in results.iter_mut().enumerate() {
+        if matches!(sc.ops[t], OpK::Flush) && r.starts_with("flushed=") { *r = format!("{r};ids=x;meta=x"); }
+    }
+    let (dump_main, dump_extra) = dump(rt, &live, sc);
+    Ok(Outcome { init_results, results, times, choices: vec![], model_sched, classes: vec![], dump_main, dump_extra, deadlock: false, branching: vec![] })
+}
+
 // ------------------------------------------------------------------------------------------
 // generation
 // ------------------------------------------------------------------------------------------
@@ -436,7 +552,8 @@ fn gen_scenario(r: &mut Rng) -> Scenario {
             _ => { let (key, val) = (r.below(2), r.below(9)); OpK::Ext { key, val } }
         });
     }
-    Scenario { idx_k, idx_u, init, ops, sched: None }
+    let cache = r.chance(1, 5);
+    Scenario { idx_k, idx_u, init, ops, sched: None, gate: None, cache }
 }
 
 // ------------------------------------------------------------------------------------------
@@ -495,6 +612,7 @@ fn check_execution(sc: &Scenario, out: &Outcome, model: &mut Option<ModelProc>) 
     if let Some(m) = model.as_mut() {
         let mut lines = sc.lines();
         lines.retain(|l| !l.starts_with("sched "));
+        if sc.gate.is_some() { lines.insert(1, "fine".into()); }
         lines.push(format!("sched {}", if out.model_sched.is_empty() { "-".to_string() } else { out.model_sched.join(",") }));
         let ans = m.ask(&format!("run {}", lines.join(" | ")));
         let imp = format!("init [{}] res [{}] {} {}", out.init_results.join(" | "), out.results.join(" | "), out.dump_main, out.dump_extra);
@@ -519,23 +637,35 @@ fn explore(rt: &tokio::runtime::Runtime, name: &str, sc: &Scenario, cap: u64, se
     let mut executions = 0u64;
     let mut exhaustive = false;
     let handle = |out: &Outcome, rep: &mut Report, model: &mut Option<ModelProc>| {
+        let mut no_model = None;
+        let model = if sc.cache { &mut no_model } else { model };
         let ck = check_execution(sc, out, model);
         let mut ops = sc.lines();
         ops.retain(|l| !l.starts_with("sched "));
-        ops.push(format!("sched {}", join(out.choices.iter().map(|c| c.text()), ",")));
+        if sc.gate.is_none() { ops.push(format!("sched {}", join(out.choices.iter().map(|c| c.text()), ","))); }
         if debug {
             eprintln!("{name}: {} => [{}] {} {} classes {}", ops.join(" | "), out.results.join(" | "), out.dump_main, out.dump_extra, out.classes.join(","));
         }
         rep.case(&ops.join("|"), ck.nontrivial);
         if model.is_some() { rep.model_compared += 1; }
+        if sc.cache { rep.hit("pass:cache-on-oracle-only"); }
         for r in &out.results { rep.hit(&format!("result:{}", r.split(['=', '(']).next().unwrap_or("?"))); }
         if let Some((key, what, exp, obs)) = ck.oracle_fail {
+            // a gated replay exhibits a window that only real parallelism opens
+            let key = if sc.gate.is_some() { format!("parallel-index-closure:{key}") } else { key };
             rep.oracle_failure(&key, &what, &ops, &exp, &obs);
         }
         if let Some((m, i)) = ck.disagreement {
             rep.disagreement("results / final state of one schedule", &ops, &m, &i);
         }
     };
+    if sc.gate.is_some() {
+        match execute_gated(rt, sc) {
+            Ok(out) => { handle(&out, rep, model); executions += 1; }
+            Err(e) => { rep.hit("case_error"); rep.notes.push(format!("{name}: {e}")); }
+        }
+        return Explored { executions, exhaustive: true };
+    }
     if let Some(s) = &sc.sched {
         let mut pos = 0;
         let s = s.clone();
@@ -601,7 +731,7 @@ fn explore(rt: &tokio::runtime::Runtime, name: &str, sc: &Scenario, cap: u64, se
 // ------------------------------------------------------------------------------------------
 
 fn multithread_runs(args: &Args, rep: &mut Report) {
-    let runs = args.budget(60, 1500);
+    let runs = if args.focus.is_some() { 3000 } else { args.budget(400, 30000) };
     let rt = tokio::runtime::Builder::new_multi_thread().worker_threads(4).enable_all().build().unwrap();
     let setup_rt = tokio::runtime::Builder::new_current_thread().enable_all().build().unwrap();
     let mut failures = 0u64;
@@ -649,7 +779,10 @@ fn multithread_runs(args: &Args, rep: &mut Report) {
             failures += 1;
             let mut ops = sc.lines();
             ops.push("# multi-threaded run (not replayable by schedule)".into());
-            rep.oracle_failure(&format!("mt:{}", v.key), &v.what, &ops, &v.expected, &format!("results [{}] final {dump_main} {dump_extra}", results.join(" | ")));
+            // with two unique indexes a random multi-threaded run can hit the window of findings
+            // F-C05-1/2 (index closures are not atomic across indexes): one stable key for those
+            let key = if sc.idx_k && sc.idx_u && v.key.starts_with("not-serializable") { "parallel-index-closure:not-serializable:uniq2:mt-random".to_string() } else { format!("mt:{}", v.key) };
+            rep.oracle_failure(&key, &v.what, &ops, &v.expected, &format!("results [{}] final {dump_main} {dump_extra}", results.join(" | ")));
         }
     }
     rep.measured.insert("multithread_runs".into(), json!({"runs": runs, "ops_per_run": "4..7", "worker_threads": 4, "runs_with_overlapping_calls": overlapping, "oracle_failures": failures,
@@ -681,21 +814,57 @@ fn main() {
                 match Scenario::parse(&lines) { Some(sc) => cases.push((name, sc)), None => rep.notes.push(format!("corpus file {name} does not parse")) }
             }
         }
-        let n = args.budget(60, 1500);
+        // search mode (an obligation or the correspondence broke): a budget between the tiers, so
+        // that it ends well inside its timeout
+        let n = if args.focus.is_some() { 8000 } else { args.budget(700, 30000) };
+        let only: Option<u64> = args.extra.get("only").and_then(|s| s.parse().ok());
         for i in 0..n {
+            if only.is_some_and(|o| o != i) { continue; }
             let mut r = Rng::for_case(args.seed, i);
             cases.push((format!("gen{i}"), gen_scenario(&mut r)));
         }
     }
-    let cap = args.extra.get("cap").and_then(|s| s.parse().ok()).unwrap_or(args.budget(60, 600));
+    let cap = args.extra.get("cap").and_then(|s| s.parse().ok()).unwrap_or(if args.focus.is_some() { 600 } else { args.budget(150, 1500) });
     let mut total = 0u64;
     let mut exhaustive_scenarios = 0u64;
+    let mut shrunk = 0;
     let t0 = std::time::Instant::now();
     for (name, sc) in &cases {
+        let failures_before = rep.oracle_failures.len();
         let r = std::panic::catch_unwind(std::panic::AssertUnwindSafe(|| explore(&rt, name, sc, cap, args.seed, &mut model, &mut rep, debug)));
         match r {
             Ok(e) => { total += e.executions; if e.exhaustive { exhaustive_scenarios += 1; } }
             Err(_) => rep.oracle_failure("panic", "the implementation panicked", &sc.lines(), "no panic", "panic"),
+        }
+        // shrink the first failure of this scenario: fewest calls / pre-population ops for which
+        // some schedule still fails in the same way
+        if rep.oracle_failures.len() > failures_before && args.replay.is_none() && sc.gate.is_none() && sc.sched.is_none() && shrunk < 4 {
+            shrunk += 1;
+            let class = |k: &str| k.split(':').next().unwrap_or("").to_string();
+            let want = class(rep.oracle_failures[failures_before]["key"].as_str().unwrap_or(""));
+            let fails = |cand: &Scenario| -> Option<vh_common::serde_json::Value> {
+                if cand.ops.len() < 2 { return None; }
+                let mut scratch = Report::new("C05", &args, "");
+                let mut none = None;
+                let ok = std::panic::catch_unwind(std::panic::AssertUnwindSafe(|| explore(&rt, "shrink", cand, 400, args.seed, &mut none, &mut scratch, false)));
+                if ok.is_err() { return None; }
+                scratch.oracle_failures.iter().find(|f| class(f["key"].as_str().unwrap_or("")) == want).cloned()
+            };
+            // candidates are index lists into init ++ ops
+            let all: Vec<(bool, usize)> = (0..sc.init.len()).map(|i| (true, i)).chain((0..sc.ops.len()).map(|i| (false, i))).collect();
+            let build = |keep: &[(bool, usize)]| Scenario {
+                init: keep.iter().filter(|(is_init, _)| *is_init).map(|(_, i)| sc.init[*i].clone()).collect(),
+                ops: keep.iter().filter(|(is_init, _)| !*is_init).map(|(_, i)| sc.ops[*i].clone()).collect(),
+                ..sc.clone()
+            };
+            let small = shrink(all, |cand| fails(&build(cand)).is_some(), 60);
+            if debug { eprintln!("shrink {name}: kept {:?}", small); }
+            if let Some(f) = fails(&build(&small)) {
+                let mut f = f;
+                f["case"] = json!(name);
+                f["shrunk_from"] = json!(sc.lines());
+                rep.oracle_failures[failures_before] = f;
+            }
         }
         for o in &sc.ops { rep.hit(&format!("op:{}", op_text(o).split(' ').next().unwrap_or("?"))); }
         rep.hit(&format!("uniq:{}", sc.idx_k as u8 + sc.idx_u as u8));
